@@ -15,6 +15,9 @@ CHECKS = {
     "C19": ("round-trip and pointwise oracle on arange-filled arrays over enumerated shapes/namings; value-at-every-point oracle for align/materialize",
             "Every array shape within the bound, event rank, naming of batch dims and dtype is converted to a funsor and back and indexed at every named point; every permutation of inputs is aligned for tensors, lazy terms, contractions, Gaussians and Deltas. Exploration, exhaustive over the stated bounded space in the thorough tier.",
             "trusted: numpy indexing; fv/refsem.py for lazy terms", "DESIGN.md §6 C19"),
+    "C03": ("differential monitor: every deferred/alternative interpretation route vs direct eager vs reference evaluator; memo-cache shadow map on every hit; identity checks; per-config subprocesses",
+            "Each generated program is built directly and through every route (lazy/reflect/normalize/memoize then the three reinterpreters, sequential, moment_matching, random nestings of context managers) in processes started with FUNSOR_USE_TCO x FUNSOR_TYPECHECK; every completed route must agree with the reference on the whole input space and keep the output domain; repeated memoized builds must be identical objects and every memo hit must match its stored request. Exploration.",
+            "trusted: fv/refsem.py; hashable arguments are considered equal when == (Number(2) and Number(2.0))", "DESIGN.md §6 C03"),
     "C04": ("reference-model monitor: simultaneous capture-free Sub semantics vs f(**subs) under eager/lazy/reflect (+reinterpret); culprit localisation by dispatch monitor",
             "A catalogue of subjects is crossed with systematic value classes for each input (all singles, pair products, triple products/samples, foreign keys, chained calls); each result is compared with the reference substitution semantics on the whole integer input space, and lazily built substitutions must declare exactly the predicted inputs. Exploration.",
             "trusted: fv/refsem.py, fv/ir.py; ill-typed maps are discarded; declines (NotImplementedError/assertions) are counted, not violations", "DESIGN.md §6 C04"),
